@@ -355,3 +355,33 @@ def check_partition_clear(ck, P, rid, bound_rid=None):
             ck.violated(bound_rid, "clear-in-bounds@total_sent", c.where, "with %d rank(s) and %d thread(s) thread %d zeroes entries [%d, %d) of an array of %d: a write past its end" % (oob[0], oob[1], oob[2], oob[3][0], oob[3][1], length), cfg)
         else:
             ck.holds(bound_rid, "clear-in-bounds@total_sent", c.where, "no share reaches past total_sent[%d] (ranks 1..%d and %d..%d evaluated)" % (length, hi - 1, length - 3, length), cfg)
+
+
+def check_rank_has_worker(ck, P, rid):
+    """lp_global_init lowers the thread count of a rank to the number of LPs it hosts.  A rank must not be left with zero workers: it
+    would start no thread, never contribute to a GVT reduction, and every other rank would wait for it forever.  Evaluated over
+    1..12 LPs x 1..8 ranks x 1..4 requested threads (ranks > LPs included): the function either aborts or leaves >= 1 thread."""
+    cfg = P.config
+    f = P.fn("lp_global_init")
+    inst = "worker-per-rank@lp_global_init"
+    bad = None
+    n_eval = 0
+    hi = 9 if _hi(ck) == 9 else 13
+    for lps in range(1, 13):
+        for nn in range(1, hi):
+            for nid in range(nn):
+                for thr in (1, 2, 4):
+                    env = {"nid": nid, "n_nodes": nn, "global_config.lps": lps, "global_config.n_threads": thr}
+                    outs = interp.Interp(f, stubs={"mm_alloc": lambda a, e: 4096, "logger": lambda a, e: 0, "vlogger": lambda a, e: 0}, max_visits=64).run(env)
+                    if not outs or any(o.how == "loop-bound" or not o.decided for o in outs):
+                        known = {"mm_alloc", "logger", "vlogger", "abort"}
+                        ck.inconclusive(rid, inst, f.where, "lp_global_init could not be evaluated for %d LPs on %d ranks%s" % (lps, nn, (" (calls %s)" % _opaque(P, f, known)) if _opaque(P, f, known) else ""), cfg)
+                        return
+                    n_eval += 1
+                    for o in outs:
+                        if o.how == "exit" and (o.env.get("global_config.n_threads") or 0) < 1 and bad is None:
+                            bad = (lps, nn, nid, o.env.get("n_lps_node"), o.env.get("global_config.n_threads"))
+    if bad:
+        ck.violated(rid, inst, f.where, "with %d LP(s) on %d ranks, rank %d hosts %s LP(s) and is left with %s worker thread(s): it never takes part in a GVT reduction and the other ranks wait for it forever (RootsimRun does not return)" % bad, cfg)
+    else:
+        ck.holds(rid, inst, f.where, "in %d configurations (ranks > LPs included) every rank either keeps >= 1 worker thread or refuses to start" % n_eval, cfg)
